@@ -502,6 +502,24 @@ for _p in ("C06", "C11", "C17"):
     SPECS[_p].modelled = SPECS[_p].modelled + ["Go regexp (FindStringSubmatchIndex / MatchString) on the flat patterns: Lib/Regex.v, hand-written, PROVED against Model/RegexSpec.v, tied by stage prims -mode regex"]
     SPECS[_p].extra_targets = SPECS[_p].extra_targets + ["Model/PrimsCheck.vo"]
 SPECS["C07"].thorough_extra = SPECS["C07"].thorough_extra + prims_strings("C07")
+
+
+# C07 with a slow CONSUMER of logins (round 7; harness/workers/c07_slow.go): the same (pid, message) handed over directly, through
+# SyslogIngester.Process and through a real FIFO + SyslogIngester.Ingest while nobody receives from the unbuffered logins channel
+# for the given time; all cases run concurrently, the stage lasts about as long as its longest delay
+def slow_consumer(delays):
+    return ["-prop", "C07", "-delays", ",".join(str(d) for d in delays)]
+
+
+SPECS["C07"].thorough_extra = SPECS["C07"].thorough_extra + [
+    ("workers", {}, slow_consumer([150, 1500, 2500, 4500, 6500, 12000, 31000]), False, slow_consumer([150, 700, 2500, 4500]))]
+SPECS["C07"].search_extra = SPECS["C07"].search_extra + [("workers", {}, slow_consumer([2500, 6500, 12000, 31000, 61000]), False)]
+SPECS["C07"].assumptions = SPECS["C07"].assumptions + [
+    "slow-consumer stage (harness/workers/c07_slow.go): framed = direct also when the consumer of logins is slow - each login form of the four hand-off selects, a failure line and an unrecognised line, "
+    "handed to ProcessSshdLogEntry directly, to SyslogIngester.Process, and written to a real FIFO read by SyslogIngester.Ingest, each with a processor and an unbuffered logins channel of its own from which "
+    "nobody receives for 0.15 / 0.7 / 2.5 / 4.5 s (quick), up to 31 s (thorough), up to 61 s (search after a broken obligation); the framed paths must yield the direct path's events (without timestamp and the "
+    "event's random id) and forwarded logins and return what it returns; a path that has not dealt with the record 10 s after the consumer started is a failure; real time is an input, the oracle waits for the paths to return",
+    READER_ASSUME]
 SPECS["C07"].assumptions = SPECS["C07"].assumptions + PRIMS_STRINGS_ASSUME
 SPECS["C07"].modelled = SPECS["C07"].modelled + ["package strings (HasPrefix HasSuffix TrimPrefix TrimSuffix Index Cut Split Join TrimLeft), string <, indexing/slicing panics, uint64/int32 arithmetic, strconv.Atoi: Lib/GoStrings.v + Model/SshdProc.atoi, hand-written, tied by stage prims -mode strings"]
 SPECS["C07"].extra_targets = SPECS["C07"].extra_targets + ["Model/PrimsCheck.vo"]
